@@ -23,6 +23,9 @@ func init() {
 }
 
 func runC12(c *Ctx) {
+	checkFreshResult(c, "C12.record", "avc", "(*AVCSample).MarshalBinary", 0)
+	checkFreshResult(c, "C12.record", "avc", "(*AVCDecoderConfigurationRecord).MarshalBinary", 0)
+	checkFreshResult(c, "C12.record", "avc", "(*NALU).MarshalBinary", 0)
 	R := c.R
 	R.Require("C12.nalu", 4)
 	R.Require("C12.record", 23)
